@@ -40,6 +40,27 @@ def run(R, env):
 
     is_net = shared.via_forms(prog, is_net0)
 
+    def is_full_reward(t):
+        """the reward itself, or `fee + (reward - fee)` with the checked subtraction that produced the restaked part
+        (`split.total()` of a `RewardSplit { fee, restaked }`): the same number whenever the subtraction succeeded"""
+        if is_reward(prog, t):
+            return True
+        from engine.analysis import forms as _f11
+        for f_ in _f11(prog, t, 3):
+            if is_reward(prog, f_):
+                return True
+            if f_[0] == "call" and f_[1] == "std::ops::Add::add" and len(f_[2]) == 2:
+                for x, y in ((f_[2][0], f_[2][1]), (f_[2][1], f_[2][0])):
+                    xs = [x] + list(_f11(prog, x, 2))
+                    ys = [y] + list(_f11(prog, y, 2))
+                    for y_ in ys:
+                        if y_[0] != "payload":
+                            continue
+                        c_ = shared.unwrap_payload(y_)
+                        if c_[0] == "call" and c_[1] == "cosmwasm_std::Uint128::checked_sub" and is_reward(prog, c_[2][0]) and any(norm(x_) == norm(c_[2][1]) for x_ in xs):
+                            return True
+        return False
+
     # R2
     for op, alts in shared.state_writes(prog, h, env):
         good_n = good_r = bool(alts)
@@ -48,7 +69,7 @@ def run(R, env):
             if v is None or not (delta_op(v)[0] == "+=" and is_net(delta_op(v)[1])):
                 good_n = False
             r = d.get(("total_reward_amount",))
-            if r is None or not (delta_op(r)[0] == "+=" and is_reward(prog, delta_op(r)[1]) and loaded_field(prog, r[1], "state", ["total_reward_amount"], CRATE)):
+            if r is None or not (delta_op(r)[0] == "+=" and is_full_reward(delta_op(r)[1]) and loaded_field(prog, r[1], "state", ["total_reward_amount"], CRATE)):
                 good_r = False
             extra = set(d) - {("total_native_token",), ("total_reward_amount",), ("total_fees",)}
             if extra:
